@@ -201,6 +201,10 @@ pub struct PeriphCfg {
     /// are the tail of the peripheral list, in order, so that handle order == list order.
     #[serde(default)]
     pub add_at_us: u64,
+    /// A second station with the same equipment answers at this address: `reset_address()` of the
+    /// user process switches the peripheral between its address and this one.
+    #[serde(default)]
+    pub alt_addr: Option<u8>,
 }
 
 #[derive(Serialize, Deserialize, Clone, Debug, Default)]
